@@ -3,7 +3,7 @@
    modifications.  Together with Proofs/PolyCarbonGen.v: parse_poly_carbon (name) = acyl_text, unbounded, for isolated
    double bonds on unbranched chains. *)
 From Coq Require Import Ascii String Bool Arith List Lia.
-From GV Require Import Base.Util Spec.Acyl Model.PolyCarbon Proofs.PolyCarbonGen.
+From GV Require Import Base.Util Spec.Acyl Model.PolyCarbon Proofs.PolyCarbonGen Proofs.PolyCarbonThm.
 Import ListNotations.
 Open Scope nat_scope.
 
@@ -166,4 +166,155 @@ Proof.
   - apply split_join; [destruct dbs; [contradiction|discriminate]|].
     apply Forall_forall. intros x Hx. apply in_map_iff in Hx as [d [<- _]]. apply db_text_props.
   - apply join_group. apply Forall_forall. intros x Hx. apply in_map_iff in Hx as [d [<- _]]. apply db_text_props.
+Qed.
+
+(* ------------------------------------------------------------------ the scanners on the name *)
+
+Lemma span_group_app body rest :
+  forallb group_chr body = true -> match rest with [] => True | c :: _ => group_chr c = false end ->
+  span_group (body ++ rest) = (body, rest).
+Proof.
+  intros Hb Hr. induction body as [|c r IH]; cbn [app].
+  - destruct rest as [|c r]; [reflexivity|]. cbn [span_group]. rewrite Hr. reflexivity.
+  - cbn [forallb] in Hb. apply andb_true_iff in Hb as [Hc Hb]. cbn [span_group]. rewrite Hc, (IH Hb). reflexivity.
+Qed.
+
+Lemma groups_aux_nil fuel : groups_aux fuel [] = [].
+Proof. destruct fuel; reflexivity. Qed.
+
+Lemma groups_aux_skip pre : forall l fuel, no_brace pre = true ->
+  groups_aux (length pre + fuel) (pre ++ l) = groups_aux fuel l.
+Proof.
+  induction pre as [|c r IH]; intros l fuel H; [reflexivity|].
+  unfold no_brace in H. cbn [forallb] in H. apply andb_true_iff in H as [Hc Hr]. apply negb_true_iff in Hc.
+  cbn [length app Nat.add groups_aux]. rewrite Hc. apply IH. exact Hr.
+Qed.
+
+Lemma prefixb_refl p : prefixb p p = true.
+Proof. apply prefixb_spec. exists []. rewrite app_nil_r. reflexivity. Qed.
+
+Lemma index_sub_skip pre x : no_brace pre = true ->
+  index_sub ("{"%char :: x) (pre ++ "{"%char :: x) = Some (length pre).
+Proof.
+  induction pre as [|c r IH]; intro H.
+  - cbn [app length]. destruct x; cbn [index_sub]; rewrite prefixb_refl; reflexivity.
+  - unfold no_brace in H. cbn [forallb] in H. apply andb_true_iff in H as [Hc Hr]. apply negb_true_iff in Hc.
+    cbn [app length index_sub prefixb].
+    assert (E : Ascii.eqb "{" c = false).
+    { rewrite Ascii.eqb_sym. rewrite <- (chr_is_eq c "{" "{"%char eq_refl). exact Hc. }
+    rewrite E. cbn [andb]. rewrite (IH Hr). reflexivity.
+Qed.
+
+(* the name of an unbranched chain: "6C<n>" or "6C<n>={<body>}" *)
+Definition tail_of (dbs : list (dbkind * nat)) : str :=
+  match dbs with
+  | [] => []
+  | _ => "="%char :: "{"%char :: body_of dbs ++ ["}"%char]
+  end.
+
+Lemma name_shape n dbs : name_of (mkAcyl false false n dbs) = "6"%char :: "C"%char :: nat2str n ++ tail_of dbs.
+Proof.
+  unfold name_of, acyl_token. cbn [ac_ante ac_iso ac_n ac_dbs s2l list_ascii_of_string app].
+  destruct dbs as [|d r]; [reflexivity|]. unfold tail_of, body_of. cbn [s2l list_ascii_of_string app].
+  try rewrite <- !app_assoc. reflexivity.
+Qed.
+
+Lemma numbers_aux_digit f c r : is_digit c = true ->
+  numbers_aux (S f) (c :: r) = (let (d, t) := span_digits (c :: r) in d :: numbers_aux f t).
+Proof. intro H. cbn [numbers_aux]. rewrite H. reflexivity. Qed.
+
+Lemma numbers_aux_skip f c r : is_digit c = false -> numbers_aux (S f) (c :: r) = numbers_aux f r.
+Proof. intro H. cbn [numbers_aux]. rewrite H. reflexivity. Qed.
+
+Lemma numbers_name n tail :
+  match tail with [] => True | c :: _ => is_digit c = false end ->
+  nth_error (numbers ("6"%char :: "C"%char :: nat2str n ++ tail)) 1 = Some (nat2str n).
+Proof.
+  intro Ht. destruct (nat2str_spec n) as [Hd [Hne _]].
+  unfold numbers. cbn [length].
+  rewrite numbers_aux_digit by reflexivity.
+  change ("6"%char :: "C"%char :: nat2str n ++ tail) with (["6"%char] ++ "C"%char :: nat2str n ++ tail).
+  rewrite (span_digits_app ["6"%char] ("C"%char :: nat2str n ++ tail)) by reflexivity.
+  rewrite numbers_aux_skip by reflexivity.
+  destruct (nat2str n) as [|c0 r0] eqn:E; [contradiction|].
+  pose proof Hd as Hd'. cbn [forallb] in Hd'. apply andb_true_iff in Hd' as [Hc0 _].
+  cbn [app length]. rewrite numbers_aux_digit by exact Hc0.
+  change (c0 :: r0 ++ tail) with ((c0 :: r0) ++ tail).
+  rewrite (span_digits_app (c0 :: r0) tail Hd Ht). reflexivity.
+Qed.
+
+Lemma no_brace_app a b : no_brace (a ++ b) = no_brace a && no_brace b.
+Proof. apply forallb_app. Qed.
+
+Lemma nth_error_mid {A} (pre : list A) c rest : nth_error (pre ++ c :: rest) (length pre) = Some c.
+Proof. rewrite nth_error_app2 by lia. rewrite Nat.sub_diag. reflexivity. Qed.
+
+(* the parsing half on the names of unbranched chains with at least one double bond *)
+Theorem parse_half n dbs :
+  dbs <> [] ->
+  parse_poly_carbon (name_of (mkAcyl false false n dbs)) = assemble n 0 [] true (Some (mods_of dbs)).
+Proof.
+  intro Hne. rewrite name_shape.
+  destruct (nat2str_spec n) as [Hd [Hnn Hv]].
+  destruct (body_props dbs Hne) as [Hsplit Hgrp].
+  set (pre0 := "6"%char :: "C"%char :: nat2str n).
+  set (body := body_of dbs) in *.
+  assert (Etail : tail_of dbs = "="%char :: "{"%char :: body ++ ["}"%char]).
+  { unfold tail_of. destruct dbs; [contradiction|reflexivity]. }
+  assert (Ename : "6"%char :: "C"%char :: nat2str n ++ tail_of dbs = (pre0 ++ ["="%char]) ++ "{"%char :: body ++ ["}"%char]).
+  { rewrite Etail. unfold pre0. cbn [app]. rewrite <- app_assoc. reflexivity. }
+  assert (Hnb : no_brace (pre0 ++ ["="%char]) = true).
+  { rewrite no_brace_app. unfold pre0. unfold no_brace at 1. cbn [forallb]. fold (no_brace (nat2str n)).
+    rewrite (digits_no_brace _ Hd). reflexivity. }
+  unfold parse_poly_carbon.
+  replace (nth_is 1 ("6"%char :: "C"%char :: nat2str n ++ tail_of dbs) "a") with false by reflexivity.
+  cbn match. replace (nth_is 1 ("6"%char :: "C"%char :: nat2str n ++ tail_of dbs) "i") with false by reflexivity.
+  rewrite numbers_name by (rewrite Etail; reflexivity).
+  rewrite Hv. cbn [andb negb].
+  (* the groups *)
+  assert (Hgroups : groups ("6"%char :: "C"%char :: nat2str n ++ tail_of dbs) = [body]).
+  { rewrite Ename. unfold groups. rewrite app_length.
+    replace (S (length (pre0 ++ ["="%char]) + length ("{"%char :: body ++ ["}"%char])))
+      with (length (pre0 ++ ["="%char]) + S (length ("{"%char :: body ++ ["}"%char]))) by lia.
+    rewrite (groups_aux_skip _ _ _ Hnb). cbn [length groups_aux].
+    replace (chr_is "{" "{") with true by reflexivity.
+    rewrite (span_group_app body ["}"%char] Hgrp) by reflexivity. cbv beta iota.
+    replace (chr_is "}" "}") with true by reflexivity. rewrite ?groups_aux_nil. reflexivity. }
+  rewrite Hgroups. cbn [map seq_opt].
+  (* the one group *)
+  assert (Hpart : part_mods ("6"%char :: "C"%char :: nat2str n ++ tail_of dbs) body = Some (mods_of dbs)).
+  { unfold part_mods. change (s2l "{" ++ body ++ s2l "}") with ("{"%char :: body ++ ["}"%char]).
+    rewrite Ename at 1. rewrite (index_sub_skip _ _ Hnb).
+    rewrite app_length. cbn [length]. rewrite Nat.add_1_r.
+    assert (Enth : nth_error ("6"%char :: "C"%char :: nat2str n ++ tail_of dbs) (length pre0) = Some "="%char).
+    { rewrite Etail. change ("6"%char :: "C"%char :: nat2str n ++ "="%char :: "{"%char :: body ++ ["}"%char])
+        with (pre0 ++ "="%char :: "{"%char :: body ++ ["}"%char]). apply nth_error_mid. }
+    unfold nth_is, nth_chr. rewrite Enth.
+    replace (chr_is "=" "c") with false by reflexivity. replace (chr_is "=" "=") with true by reflexivity.
+    rewrite Hsplit. apply seq_opt_eq_mods. }
+  rewrite Hpart. rewrite app_nil_r. reflexivity.
+Qed.
+
+(* UNBOUNDED: the model of SMILESReaktor.parse_poly_carbon, run on the name of an unbranched chain of any length with any
+   list of isolated double bonds that the specification accepts, writes the text of the designation *)
+Theorem parse_poly_carbon_isolated n dbs :
+  dbs <> [] -> isolated_from 0 dbs -> acyl_ok (mkAcyl false false n dbs) = true ->
+  parse_poly_carbon (name_of (mkAcyl false false n dbs)) = acyl_text (mkAcyl false false n dbs).
+Proof. intros Hne Hi Hok. rewrite (parse_half n dbs Hne). apply assemble_isolated; assumption. Qed.
+
+Theorem parse_poly_carbon_saturated n :
+  2 <= n -> parse_poly_carbon (name_of (mkAcyl false false n [])) = acyl_text (mkAcyl false false n []).
+Proof.
+  intro Hn. rewrite <- (assemble_saturated n Hn). rewrite name_shape. cbn [tail_of]. rewrite app_nil_r.
+  destruct (nat2str_spec n) as [Hd [Hnn Hv]].
+  unfold parse_poly_carbon.
+  replace (nth_is 1 ("6"%char :: "C"%char :: nat2str n) "a") with false by reflexivity.
+  cbn match. replace (nth_is 1 ("6"%char :: "C"%char :: nat2str n) "i") with false by reflexivity.
+  rewrite <- (app_nil_r (nat2str n)) at 1. rewrite numbers_name by exact I. rewrite Hv. cbn [andb negb].
+  assert (Hg : groups ("6"%char :: "C"%char :: nat2str n) = []).
+  { unfold groups. rewrite <- (app_nil_r ("6"%char :: "C"%char :: nat2str n)) at 2.
+    replace (S (length ("6"%char :: "C"%char :: nat2str n))) with (length ("6"%char :: "C"%char :: nat2str n) + 1) by lia.
+    rewrite groups_aux_skip; [reflexivity|].
+    unfold no_brace. cbn [forallb]. fold (no_brace (nat2str n)). rewrite (digits_no_brace _ Hd). reflexivity. }
+  rewrite Hg. cbn [map seq_opt]. unfold assemble. destruct (n <? 0 + 1); reflexivity.
 Qed.
